@@ -75,6 +75,35 @@ pub fn temp_root_survives(gc_before: u8) -> bool {
   st.obj_len == 1 && a.value == Value::from(1.0) && gc.temp_roots() == 0
 }
 
+// ---- C09: the intern table ----
+fn same_obj(a: LyStr, b: LyStr) -> bool { std::ptr::eq(&*a as *const str as *const u8, &*b as *const str as *const u8) }
+
+/// interning the same content twice yields the same object, with one table entry keyed by its own bytes
+pub fn intern_twice() -> bool {
+  let mut gc = ManuallyDrop::new(Allocator::default());
+  let a = gc.manage_str("ab", &NO_GC);
+  let b = gc.manage_str("ab", &NO_GC);
+  let st = gc.verif_stats();
+  same_obj(a, b) && &*a == "ab" && st.intern_len == 1 && st.nursery_obj_len == 1 && gc.verif_intern_consistent()
+    && gc.has_str("ab").map_or(false, |s| same_obj(s, a)) && gc.has_str("a").is_none()
+}
+
+/// created, dropped, collected, recreated: an unrooted string leaves the table BEFORE its bytes are released, and
+/// interning equal content afterwards yields a fresh string that is found by content; a rooted one stays the same object
+pub fn intern_across_collection(rooted: bool) -> bool {
+  let mut gc = ManuallyDrop::new(Allocator::default());
+  gc.verif_set_gc_count(9);
+  let x = gc.manage_str("ab", &NO_GC);
+  gc.collect_garbage(&Roots::<1> { boxes: [None], strs: [if rooted { Some(x) } else { None }] });
+  let st = gc.verif_stats();
+  let found = gc.has_str("ab");
+  let ok1 = if rooted { st.intern_len == 1 && found.map_or(false, |s| same_obj(s, x)) && &*x == "ab" } else { st.intern_len == 0 && found.is_none() };
+  let y = gc.manage_str("ab", &NO_GC);
+  let st2 = gc.verif_stats();
+  ok1 && &*y == "ab" && st2.intern_len == 1 && gc.verif_intern_consistent() && gc.has_str("ab").map_or(false, |s| same_obj(s, y))
+    && (!rooted || same_obj(x, y))
+}
+
 #[cfg(kani)]
 mod proofs {
   use super::*;
@@ -110,6 +139,17 @@ mod proofs {
     assert!(kept);
     assert!(intact);
   }
+
+  #[kani::proof]
+  #[kani::unwind(10)]
+  #[kani::stub(<ObjectHandle as std::ops::Drop>::drop, drop_stub)]
+  fn o09_intern_twice() { assert!(intern_twice()); }
+
+  #[kani::proof]
+  #[kani::unwind(10)]
+  #[kani::stub(<ObjectHandle as std::ops::Drop>::drop, drop_stub)]
+  #[kani::stub(<laythe_core::ObjectRef as Trace>::trace, no_children)]
+  fn o09_intern_across_collection() { assert!(intern_across_collection(kani::any())); }
 
   #[kani::proof]
   #[kani::unwind(4)]
